@@ -23,7 +23,10 @@ RULE = ("time grids (odd/even lengths 2..40, four sampling steps, zero / positiv
         "same dt+count / other start, same start+end / other count, supersets, one-sample grids); objects whose basis "
         "(amps, phases, also rms and - full class - freqs) is REPLACED after they were evaluated, then evaluated through "
         "with_times-derived objects and Antenna.make_noise, against the currently published basis, a never-evaluated "
-        "object given that basis, and the model given that basis; a case is non-trivial when the basis is non-empty; "
+        "object given that basis, and the model given that basis; sample times as arrays, lists, tuples, Python ints and "
+        "int arrays (1 s spacing), with_times given plain lists; bands of zero width; rms_voltage together with "
+        "temperature and resistance; a callable amplitude answering with one number (F19 for the FFT class); a derived "
+        "object shifted in place while other handles stay live; a case is non-trivial when the basis is non-empty; "
         "distinct = distinct (class, grid, band, spec, uniqueness) tuples")
 LEVEL_TEXT = ("theorems (cosine-sum form of both classes, band membership, irfft = cosine sum for bins strictly between "
               "DC and Nyquist, half-weight Nyquist bin, periodic interpolation consistent iff the period is n*dt, unit "
@@ -112,7 +115,22 @@ def amp_arg(spec):
         return lambda f: spec[1] + spec[2] * (f / 1e9)
     if k == "affine1":   # evaluates one frequency at a time only
         return lambda f: spec[1] + spec[2] * (float(f) / 1e9)
+    if k == "scalarfn":  # a callable that answers an array of frequencies with one number
+        return lambda f: spec[1]
     return None
+
+
+def times_form(times, form):
+    """the same sample times in another container / dtype form"""
+    if form == "list":
+        return [float(t) for t in times]
+    if form == "tuple":
+        return tuple(float(t) for t in times)
+    if form == "pyint":
+        return [int(t) for t in times]
+    if form == "intarray":
+        return np.array([int(t) for t in times])
+    return times
 
 
 def construct(case):
@@ -126,8 +144,8 @@ def construct(case):
         kw["temperature"] = case["T"]
     if case.get("R") is not None:
         kw["resistance"] = case["R"]
-    return cls(times, (case["fmin"], case["fmax"]), f_amplitude=amp_arg(case["spec"]),
-               uniqueness_factor=case["uniq"], **kw), times
+    return cls(times_form(times, case.get("tform", "array")), (case["fmin"], case["fmax"]),
+               f_amplitude=amp_arg(case["spec"]), uniqueness_factor=case["uniq"], **kw), times
 
 
 def rand_case(run, cls=None, force=None):
@@ -137,6 +155,9 @@ def rand_case(run, cls=None, force=None):
     dt = rng.choice([0.5e-9, 1e-9, 0.2e-9, 0.37e-9])
     t0 = rng.choice([0.0, 3e-7, -1.3e-7, rng.uniform(-1, 1) * 1e-6])
     uniq = rng.choice([1, 1, 2, 3, 4, 0.5, 2.7])
+    tform = rng.choice(["array", "array", "array", "list", "tuple"])
+    if rng.random() < 0.12:      # integer sample times (Python ints or an int array), one sample per second
+        tform, dt, t0 = rng.choice(["pyint", "intarray"]), 1.0, float(rng.randint(-40, 40))
     fny = 1 / (2 * dt)
     ui = max(1, int(uniq))
     nall = ui * n
@@ -172,11 +193,13 @@ def rand_case(run, cls=None, force=None):
             uniq = 1
     spec = rng.choice([("const", 1.0), ("const", rng.uniform(0.2, 2.0)), ("affine", rng.uniform(0.5, 1.5), rng.uniform(0, 2)),
                        ("affine1", rng.uniform(0.5, 1.5), rng.uniform(0, 2)), ("tape",), ("tape",)])
-    rmode = rng.choice(["rms", "rms", "TR", "missing"] if force is None else ["rms", "TR"])
+    rmode = rng.choice(["rms", "rms", "TR", "missing", "both"] if force is None else ["rms", "TR", "both"])
     case = {"cls": cls, "n": n, "dt": dt, "t0": t0, "uniq": uniq, "fmin": fmin, "fmax": fmax, "band": kind,
-            "spec": list(spec), "rms": None, "T": None, "R": None}
+            "spec": list(spec), "rms": None, "T": None, "R": None, "tform": tform}
     if rmode == "rms":
         case["rms"] = rng.choice([1.0, rng.uniform(1e-6, 3.0)])
+    elif rmode == "both":     # rms_voltage wins over temperature and resistance
+        case["rms"], case["T"], case["R"] = rng.uniform(0.1, 3.0), rng.uniform(100, 400), rng.uniform(10, 500)
     elif rmode == "TR":
         case["T"], case["R"] = rng.uniform(100, 400), rng.uniform(10, 500)
     else:
@@ -184,6 +207,8 @@ def rand_case(run, cls=None, force=None):
             case["T"] = 300.0
     if rng.random() < 0.04:
         case["fmin"], case["fmax"] = case["fmax"], case["fmin"]   # reversed band -> ValueError
+    elif rng.random() < 0.03:
+        case["fmax"] = case["fmin"]                               # empty band of zero width -> ValueError
     return case
 
 
@@ -246,6 +271,8 @@ def regrid_values(nz, tt):
     """values on the grid, or "unsupported" when a one-sample grid makes FunctionSignal raise TypeError (it has no
     sample spacing; every FunctionSignal does that, see the report)"""
     try:
+        if len(tt) > 1 and float(tt[0]) * 7 % 2 < 1:     # about half of the requests hand over a plain list
+            return [float(x) for x in nz.with_times([float(t) for t in tt]).values]
         return [float(x) for x in nz.with_times(tt).values]
     except TypeError:
         if len(tt) == 1:
@@ -422,7 +449,7 @@ def in_k4(case, nz):
     return bool(nz.freqs[-1] == fnyq and nz.amps[-1] != 0)
 
 
-def oracle(inp):
+def _oracle(inp):
     """-> list of (kind, observed, expected, what, finding_key)"""
     case = inp["case"]
     cls = case["cls"]
@@ -432,7 +459,36 @@ def oracle(inp):
         nz, times = construct(case)
     except ValueError:
         return out
+    except IndexError:
+        if case["spec"][0] == "scalarfn" and cls == "fft" and case["fmin"] <= 0 <= case["fmax"]:
+            out.append(("scalar-callable", "IndexError", "amplitudes as for the number %r" % case["spec"][1],
+                        "FFTThermalNoise cannot be built from a callable that answers an array with one number when the "
+                        "band contains DC", "F19"))
+            return out
+        raise
     n, dt = case["n"], case["dt"]
+    if case["spec"][0] == "scalarfn":
+        if np.ndim(nz.amps) == 0:
+            if cls == "fft":
+                out.append(("scalar-callable", "amps of shape ()", "one amplitude per published frequency",
+                            "FFTThermalNoise publishes a 0-d amplitude for a callable that answers an array with one "
+                            "number", "F19"))
+                nz.amps = np.full(len(nz.freqs), float(nz.amps))     # what the waveform must still be built from
+                if len(nz.freqs) and not in_k4(case, nz):
+                    vv = np.array(nz.values)
+                    rr = cos_sum(nz, cls, times, times[0])
+                    if np.max(np.abs(vv - rr)) > 1e-9 * (float(np.max(np.abs(rr))) + 1e-300):
+                        out.append(("cos-sum", float(np.max(np.abs(vv - rr))), 0.0,
+                                    "values differ from the cosine sum with the callable's amplitude at every frequency", None))
+                return out
+            else:
+                out.append(("scalar-callable", "amps of shape ()", "one amplitude per published frequency",
+                            "published amplitudes are not one per frequency", None))
+                return out
+        want_amps = np.where(np.array(nz.freqs) == 0, 0.0, case["spec"][1])
+        if not np.array_equal(np.asarray(nz.amps, dtype=float), want_amps):
+            out.append(("scalar-callable", [float(a) for a in np.atleast_1d(nz.amps)[:4]], [float(a) for a in want_amps[:4]],
+                        "a callable answering with one number does not give that amplitude at every frequency", None))
     N = len(nz.freqs)
     k4 = in_k4(case, nz)
     amp_scale = nz.rms * (math.sqrt(2 / N) * float(np.sum(np.abs(nz.amps))) if N else 0.0)
@@ -527,6 +583,20 @@ def oracle(inp):
         if np.max(np.abs(np.array(sub) - v[1:-1])) > tol:
             out.append(("absolute-time", float(np.max(np.abs(np.array(sub) - v[1:-1]))), 0.0,
                         "sub-window disagrees with the original at shared sample times", None))
+    # (3b) several live handles: a derived object is shifted in place; the object it was derived from, and objects
+    #      derived later, still produce the basis waveform at absolute times
+    if n >= 2:
+        h1 = nz.with_times(times)
+        h2 = nz.with_times(times + dt)
+        h1.shift(2.5 * dt)
+        h1v = np.array(h1.values)
+        if len(h1v) != n or np.max(np.abs(h1v - v)) > tol:
+            out.append(("handles", float(np.max(np.abs(h1v - v))) if len(h1v) == n else len(h1v), 0.0,
+                        "a derived object changes its values when it is shifted as a whole", None))
+        compare("handles", np.array(h2.values), cos_sum(nz, cls, times + dt, t_ref), np.arange(n) + 1, tol * 1.1,
+                "an object derived earlier changes after another derived object was shifted", [1])
+        compare("handles", np.array(nz.with_times(times).values), ref, np.arange(n), tol,
+                "objects derived after another derived object was shifted depart from the basis waveform", [0])
     # (4) no power outside the band (FFT class: periodogram over one full period)
     if cls == "fft" and N:
         nall = max(1, int(case["uniq"])) * n
@@ -644,6 +714,18 @@ def oracle(inp):
     return out
 
 
+def oracle(inp):
+    """an exception where the property prescribes a waveform is a failure of the property on that input"""
+    try:
+        return _oracle(inp)
+    except Exception as e:     # noqa: BLE001
+        import traceback
+        tb = traceback.format_exc().strip().split("\n")
+        where = next((l.strip() for l in reversed(tb) if "pyrex" in l and "File" in l), tb[-1])
+        return [("raised", "%s: %s" % (type(e).__name__, str(e)[:160]), "a noise waveform",
+                 "the implementation raised where the property prescribes values (%s)" % where[:140], None)]
+
+
 def gen_oracle_input(run, i):
     rng = run.rng
     if i % 5 == 4:
@@ -663,6 +745,8 @@ def gen_oracle_input(run, i):
                 "regrids": regrid_specs(run, case, 4)}
     case = rand_case(run, force=rng.choice(["inside", "inside", "touch0", "above", "straddle", "narrow", "edges"]))
     case["band"] = "oracle"
+    if rng.random() < 0.06:
+        case["spec"] = ["scalarfn", rng.choice([1.0, rng.uniform(0.3, 2.0)])]
     return {"case": case, "seed": rng.randrange(2 ** 31),
             "shifts": [rng.randint(-3 * case["n"], 3 * case["n"]), rng.randint(1, max(1, case["n"] - 1))],
             "regrids": regrid_specs(run, case, 6), "replace_rms": rng.random() < 0.3, "replace_freqs": rng.random() < 0.3}
